@@ -342,3 +342,11 @@ Proof. eexists. split; [vm_compute; reflexivity|reflexivity]. Qed.
 (* the unchecked memcpy: a burst request longer than 506 octets overruns uint8_t buf[512] *)
 Lemma c_burst_req_oob_refuted : c_burst_req 0 0 0 (repeat 0 507) = TxOOB.
 Proof. vm_compute. reflexivity. Qed.
+
+(* what trxcon sends always fits the 512 octets the toolkit's DATAInterface.recv_raw_data() asks for *)
+Lemma c_burst_req_fits tn fn pwr burst o : c_burst_req tn fn pwr burst = TxSent o -> (length o <= 512)%nat /\ length o = (6 + length burst)%nat.
+Proof.
+  unfold c_burst_req. destruct gen_trxif_consts as [_ [-> _]].
+  destruct (6 + Z.of_nat (length burst) >? 512) eqn:E; [discriminate|]. intros H. injection H as <-.
+  unfold be32. rewrite !app_length, map_length. cbn [length]. lia.
+Qed.
